@@ -106,14 +106,14 @@ func runC05(tier string, _ []string) int {
 						continue
 					}
 					anc := ancs[r.Intn(len(ancs))]
-					if anc == "root" || d.g.HasEdge(desc, anc) {
+					if anc == "root" || anc == "none" || d.g.HasEdge(desc, anc) {
 						continue
 					}
 					if class == "cycle-deleted" {
 						// tombstone one edge on the path first: deleted edges still count
 						ps := d.g.Parents(desc, true)
 						p := ps[r.Intn(len(ps))]
-						if p != "root" && !d.g.Deleted(p, desc) && d.g.Ancestors(desc, true)[anc] {
+						if p != "root" && p != "none" && !d.g.Deleted(p, desc) && d.g.Ancestors(desc, true)[anc] {
 							if e, err := d.sendEdge(desc, p, data.Points{{Type: data.PointTypeTombstone, Time: d.now(), Value: 1}}); err != nil || e != "" {
 								c.Violate("store:legal-write-refused", fmt.Sprint("tombstone: ", err, e), map[string]any{"case": i, "ops": d.Log})
 								return
@@ -138,7 +138,7 @@ func runC05(tier string, _ []string) int {
 						continue
 					}
 					anc = ancs[r.Intn(len(ancs))]
-					if anc == "root" || anc == in.RootID || d.g.HasEdge(desc, anc) {
+					if anc == "root" || anc == "none" || anc == in.RootID || d.g.HasEdge(desc, anc) {
 						continue
 					}
 					ps := d.g.Parents(anc, false)
@@ -273,7 +273,7 @@ func runC05(tier string, _ []string) int {
 					}
 					mid = ancs[r.Intn(len(ancs))]
 					other = d.pickNode()
-					if mid == "root" || mid == in.RootID || other == in.RootID || other == low || other == mid {
+					if mid == "root" || mid == "none" || mid == in.RootID || other == in.RootID || other == low || other == mid {
 						continue
 					}
 					if d.g.Ancestors(other, true)[mid] || d.g.Ancestors(mid, true)[other] || d.g.Ancestors(low, true)[other] || d.g.Ancestors(other, true)[low] || d.g.HasEdge(other, mid) {
